@@ -187,7 +187,9 @@ def mergeSegs (vectors : Bool) (mode : Nat) (segs : List Seg) (drops : List (Opt
     let terms := keys.filterMap (fun k =>
       let parts := focus.filterMap (fun p => (lookup k (p.1.dictTerms nm)).map (fun r => (p.1.fields.map (·.name), p.2, r)))
       (chooseRep (mergeTermParts same names parts)).map (fun r => (k, r)))
-    let dvParts := focus.filterMap (fun p => match p.1.field? nm with
+    -- doc values are copied from EVERY input that has them for this field, in focus or not (a field
+    -- may carry doc values - encoded shapes - without a single term; before fix D11 those were lost)
+    let dvParts := (segs.zip maps).filterMap (fun p => match p.1.field? nm with
       | none => none
       | some f => f.dv.map (fun dv => dvMerge p.2 dv))
     let thesParts := (segs.zip maps).filterMap (fun p => (p.1.thes? nm).map (fun t => (p.2, t)))
